@@ -1,4 +1,18 @@
-(* C19/Props.v -- pinned property theorems (placeholder while the proofs are being built) *)
+(* C19/Props.v -- pinned property theorems; nothing but statements closed by `exact`. *)
 From NV.Common Require Import Base.
-From NV.C19 Require Import Model.
+From NV.C19 Require Import Model Proofs.
 Open Scope N_scope.
+
+(* Chunker::chunk loses and invents nothing, for every chunk size > 0 and every input
+   (sizes 0, 1, n-1, n, n+1, many are instances) *)
+Theorem C19_split_concat : forall (n : nat) (d : list N), (0 < n)%nat -> concat (split n d) = d.
+Proof. exact split_concat. Qed.
+
+(* every piece is non-empty and at most n long; every piece but the last is exactly n long *)
+Theorem C19_split_sizes : forall (n : nat) (d : list N), (0 < n)%nat ->
+  Forall (fun p => (0 < length p <= n)%nat) (split n d) /\
+  forall ps q, split n d = ps ++ [q] -> Forall (fun p => length p = n) ps.
+Proof. exact split_sizes. Qed.
+
+Print Assumptions C19_split_concat.
+Print Assumptions C19_split_sizes.
